@@ -128,7 +128,12 @@ pub fn label_universe(rng: &mut Rng, k: usize) -> Vec<Label> {
 }
 
 pub fn gen_data(rng: &mut Rng, noncanon: bool) -> HexSpec {
-    let len = *rng.pick(&[0usize, 1, 1, 3, 7, 8, 8, 9, 16, 40]);
+    // mostly around the 8-byte inline boundary; one in eight from a wider set of lengths
+    let len = if rng.chance(1, 8) {
+        *rng.pick(&[2usize, 4, 5, 6, 10, 15, 17, 24, 31, 32, 33, 63, 64, 65, 100, 127, 128, 129, 255, 256, 257, 300])
+    } else {
+        *rng.pick(&[0usize, 1, 1, 3, 7, 8, 8, 9, 16, 40])
+    };
     let bytes = rng.bytes(len);
     if noncanon && rng.chance(1, 5) {
         if len <= 8 && rng.chance(1, 2) {
@@ -149,7 +154,14 @@ impl Gen {
     pub fn new(seed: u64, profile: Profile, n: usize, cap: usize) -> Self {
         let mut rng = Rng::new(seed);
         let nl = match profile {
-            Profile::Full | Profile::Labels => rng.range(n.min(3), (n + 2).min(18)),
+            // half of these histories have enough labels to fill a vertex completely (N of them)
+            Profile::Full | Profile::Labels => {
+                if rng.chance(1, 2) {
+                    n + rng.range(0, 2)
+                } else {
+                    rng.range(n.min(3), (n + 2).min(18))
+                }
+            }
             _ => rng.range(1, 6),
         };
         let nl = nl.max(1);
@@ -228,9 +240,11 @@ impl Gen {
             return Some(self.pending.swap_remove(i));
         }
         let grave: Vec<usize> = m.graveyard.iter().copied().collect();
-        match self.rng.below(10) {
+        match self.rng.below(11) {
             0..=3 if !grave.is_empty() => Some(*self.rng.pick(&grave)),
             4..=5 => Some(absent[0]),
+            // the far end of the store: the last ids below the capacity
+            10 => Some(absent[absent.len() - 1 - self.rng.below(absent.len().min(3))]),
             6 => {
                 // around the allocator position
                 let cands: Vec<usize> = [m.pos.wrapping_sub(1), m.pos, m.pos + 1, m.pos + 2]
@@ -257,6 +271,28 @@ impl Gen {
     fn gen_bind(&mut self, m: &Model) -> Option<Op> {
         let ug = Self::ungrouped(m);
         let gr = Self::grouped(m);
+        // hub: keep binding new labels from the vertex that already has most, until it holds N,
+        // then re-bind labels of the full vertex
+        if matches!(self.profile, Profile::Full | Profile::Labels) && self.rng.chance(1, 2) {
+            if let Some((hub, hx)) = m.verts.iter().max_by_key(|(_, x)| x.edges.len()) {
+                let keys = m.keys();
+                for _ in 0..6 {
+                    let v2 = *self.rng.pick(&keys);
+                    let l = if hx.edges.len() < m.n {
+                        let fresh: Vec<Label> = self.labels.iter().copied().filter(|l| !hx.edges.iter().any(|(k, _)| k == l)).collect();
+                        if fresh.is_empty() {
+                            break;
+                        }
+                        *self.rng.pick(&fresh)
+                    } else {
+                        hx.edges[self.rng.below(hx.edges.len())].0
+                    };
+                    if m.legal_bind(*hub, v2, l) {
+                        return Some(Op::Bind(*hub, v2, l));
+                    }
+                }
+            }
+        }
         for _ in 0..12 {
             // arm choice: u/u, u/g, g/u, g/g
             let arm_w: [u32; 4] = match self.profile {
@@ -574,10 +610,11 @@ impl Gen {
 /// Pick a configuration (N, cap): weighted toward small N and small capacities.
 pub fn pick_config(rng: &mut Rng) -> (usize, usize) {
     let n = *rng.pick(&[1usize, 1, 2, 2, 3, 3, 4, 4, 4, 5, 6, 7, 8, 8, 9, 10, 11, 12, 13, 14, 15, 16, 16, 16]);
-    let cap = match rng.below(10) {
+    let cap = match rng.below(11) {
         0 => rng.range(2, 5),
         1..=6 => rng.range(6, 40),
         7..=8 => rng.range(41, 120),
+        9 => rng.range(121, 255),
         _ => 256,
     };
     (n, cap)
